@@ -21,7 +21,8 @@ def BufP (c : RtCtx) (i : Nat) (b : StrBuf) : Prop :=
   b.counter ≤ (c.ty i).cap ∧
   (b.writable = true → b.bytes.size = (c.ty i).size) ∧
   (b.alloc = .null → c.realloc i = true) ∧
-  b.alloc ≠ .freed
+  b.alloc ≠ .freed ∧
+  (b.alloc = .null → b.counter = 0)
 
 /-- Declared sizes leave room for the terminator. -/
 def RtCtx.SizesOK (c : RtCtx) : Prop :=
@@ -111,11 +112,15 @@ theorem inv_onDemandAlloc (c : RtCtx) (σ : CState) (i : Nat) (h : Inv c σ) :
     simp only [RtCtx.onDemandAlloc, hne]
     split <;> exact ⟨h, rfl, hw⟩
 
-theorem inv_setCounter (c : RtCtx) (σ : CState) (i n : Nat) (h : Inv c σ) (hn : n ≤ (c.ty i).cap) :
+theorem absurd_null_of_writable {b : StrBuf} {P : Prop} (hw : b.writable = true) (hn : b.alloc = .null) : P := by
+  simp [StrBuf.writable, hn] at hw
+
+theorem inv_setCounter (c : RtCtx) (σ : CState) (i n : Nat) (h : Inv c σ) (hn : n ≤ (c.ty i).cap)
+    (hn0 : (σ.str i).alloc = .null → n = 0) :
     Inv c (σ.setStr i { σ.str i with counter := n }) ∧
     ((σ.setStr i { σ.str i with counter := n }).str i).writable = (σ.str i).writable := by
   have hb := h.2 i
-  refine ⟨inv_setStr c σ i _ h ⟨hn, hb.2.1, hb.2.2.1, hb.2.2.2⟩, ?_⟩
+  refine ⟨inv_setStr c σ i _ h ⟨hn, hb.2.1, hb.2.2.1, hb.2.2.2.1, hn0⟩, ?_⟩
   rw [str_setStr]; split <;> rfl
 
 /-- Storing one byte at the counter, given room for it. -/
@@ -132,7 +137,7 @@ theorem inv_store (c : RtCtx) (hs : c.SizesOK) (σ : CState) (i v : Nat) (h : In
   obtain ⟨h1, hc1, ha1⟩ := inv_writeByte c σ i b.counter v h hw (by omega)
   have hw1 : (σ1.str i).writable = true := by
     simp only [StrBuf.writable] at hw ⊢; rw [ha1]; exact hw
-  obtain ⟨h2, hw2⟩ := inv_setCounter c σ1 i (b.counter + 1) h1 (by omega)
+  obtain ⟨h2, hw2⟩ := inv_setCounter c σ1 i (b.counter + 1) h1 (by omega) (absurd_null_of_writable hw1)
   show Inv c (if (c.ty i).nullTerm then c.writeByte σ2 i (b.counter + 1) 0 else σ2)
   split
   · next hnt =>
@@ -203,9 +208,10 @@ theorem inv_apply_setStr (c : RtCtx) (hs : c.SizesOK) (σ : CState) (isStart : B
   split
   · next hnt =>
     have hlt := hsz.2 hnt
-    obtain ⟨h3, _, _⟩ := inv_writeByte c _ i bs.length 0 h2 hw2 (by omega)
-    exact (inv_setCounter c _ i bs.length h3 hfit).1
-  · exact (inv_setCounter c _ i bs.length h2 hfit).1
+    obtain ⟨h3, _, ha3⟩ := inv_writeByte c _ i bs.length 0 h2 hw2 (by omega)
+    refine (inv_setCounter c _ i bs.length h3 hfit ?_).1
+    rw [ha3]; exact absurd_null_of_writable hw2
+  · exact (inv_setCounter c _ i bs.length h2 hfit (absurd_null_of_writable hw2)).1
 
 theorem inv_apply_delete (c : RtCtx) (hs : c.SizesOK) (σ : CState) (isStart : Bool) (i : Nat)
     (h : Inv c σ) : Inv c (c.apply σ isStart (.delete i)) := by
@@ -234,8 +240,8 @@ theorem inv_apply_delete (c : RtCtx) (hs : c.SizesOK) (σ : CState) (isStart : B
         simp only [StrBuf.writable]
         cases ha : (σ.str i).alloc <;> simp_all
       obtain ⟨h1, _, _⟩ := inv_writeByte c σ i 0 0 h hw (by have := (hs i).2 hwr.1; omega)
-      exact (inv_setCounter c _ i 0 h1 (by omega)).1
-    · exact (inv_setCounter c _ i 0 h (by omega)).1
+      exact (inv_setCounter c _ i 0 h1 (by omega) (fun _ => rfl)).1
+    · exact (inv_setCounter c _ i 0 h (by omega) (fun _ => rfl)).1
 
 theorem inv_log (c : RtCtx) (σ : CState) (l : Array String) (h : Inv c σ) : Inv c { σ with log := l } :=
   ⟨h.1, fun j => h.2 j⟩
@@ -502,9 +508,10 @@ theorem buf_noDefInt_of_safeCheck (c : RtCtx) (h : c.safeCheck = true) (i : Nat)
 theorem bufP_update (c : RtCtx) (i : Nat) (b : StrBuf) (bytes' : Array (Option Nat)) (n : Nat)
     (hsz : bytes'.size = b.bytes.size) (hn : n ≤ (c.ty i).cap)
     (h2 : b.writable = true → b.bytes.size = (c.ty i).size)
-    (h3 : b.alloc = .null → c.realloc i = true) (h4 : b.alloc ≠ .freed) :
+    (h3 : b.alloc = .null → c.realloc i = true) (h4 : b.alloc ≠ .freed)
+    (h5 : b.alloc = .null → n = 0) :
     BufP c i { b with bytes := bytes', counter := n } :=
-  ⟨hn, fun hw => by rw [hsz]; exact h2 hw, h3, h4⟩
+  ⟨hn, fun hw => by rw [hsz]; exact h2 hw, h3, h4, h5⟩
 
 theorem baseBuf_facts (c : RtCtx) (σ0 : CState) (i : Nat)
     (hdi : (c.M.outs.getD i default).defInt = none) :
@@ -536,6 +543,14 @@ theorem baseBuf_facts (c : RtCtx) (σ0 : CState) (i : Nat)
     · rw [if_pos hsz, hsz]; exact hty
     · rw [if_neg hsz]; simpa using hty
 
+theorem baseBuf_notnull_of_default (c : RtCtx) (σ0 : CState) (i : Nat) (bs : List Nat)
+    (hd : (c.M.outs.getD i default).defStr = some bs) : (c.baseBuf σ0 i).alloc ≠ .null := by
+  unfold RtCtx.baseBuf
+  simp only [hd]
+  by_cases hdyn : c.isDyn i = true
+  · rw [if_pos hdyn]; simp
+  · rw [if_neg hdyn]; simp
+
 /-- Every buffer `start()` sets up satisfies the buffer invariant. -/
 theorem initBuf_ok (c : RtCtx) (h : c.safeCheck = true) (σ0 : CState) (i : Nat) (hi : i < c.M.outs.size) :
     BufP c i (c.initBuf σ0 i) := by
@@ -550,12 +565,13 @@ theorem initBuf_ok (c : RtCtx) (h : c.safeCheck = true) (σ0 : CState) (i : Nat)
       by_cases hc : ((c.M.outs.getD i default).ty.nullTerm && (c.baseBuf σ0 i).alloc != Alloc.null) = true
       · rw [if_pos hc]
         exact bufP_update c i (c.baseBuf σ0 i) ((c.baseBuf σ0 i).bytes.setIfInBounds 0 (some 0)) (c.baseBuf σ0 i).counter
-          (by simp) (by rw [f5]; omega) f2 f3 f4
+          (by simp) (by rw [f5]; omega) f2 f3 f4 (fun _ => f5)
       · rw [if_neg hc]
-        exact ⟨(by rw [f5]; omega), f2, f3, f4⟩
+        exact ⟨(by rw [f5]; omega), f2, f3, f4, fun _ => f5⟩
     | some bs =>
       have hfit := defStr_fits_of_safeCheck c h i hi bs hd
       refine bufP_update c i (c.baseBuf σ0 i) _ bs.length ?_ hfit f2 f3 f4
+        (fun hn => absurd hn (baseBuf_notnull_of_default c σ0 i bs hd))
       by_cases hnt : (c.M.outs.getD i default).ty.nullTerm = true
       · rw [if_pos hnt]
         simp only [Array.size_setIfInBounds]
